@@ -2,6 +2,7 @@
 from __future__ import annotations
 
 import ast
+import re
 from typing import Dict, List, Optional, Set, Tuple
 
 from ..cfg import CFG, Node, reaching_defs
@@ -133,7 +134,22 @@ def run(ctx: Ctx) -> None:
             bad = [short(c) for c in calls if not (norm(c.func) in ("print", "inspect.currentframe") or norm(c.func).startswith("inspect."))]
             stores = [s for s in ast.walk(f) if isinstance(s, (ast.Assign, ast.AugAssign)) and any(isinstance(t, ast.Attribute) for t in (s.targets if isinstance(s, ast.Assign) else [s.target]))]
             ctx.ob("R18.2", "parser:CxxParser.__init__|verbose debug_print only prints", not bad and not stores, msg=f"the verbose printer does more than print: {bad}", node=f, mod=mod)
+    # the verbose printer applies '%' to its format: then the data must never be part of the format string
+    pct = False
+    for f in ast.walk(init):
+        if isinstance(f, ast.FunctionDef) and f.name == "debug_print" and f.args.args:
+            first = f.args.args[0].arg
+            for x in ast.walk(f):
+                if isinstance(x, ast.BinOp) and isinstance(x.op, ast.Mod) and first in {n.id for n in ast.walk(x.left) if isinstance(n, ast.Name)}:
+                    pct = True
+    ctx.extra["verbose_printer_applies_percent"] = pct
     may = pm.may_consume() | pm.may_emit() | pm.closure({"_setup_state", "_pop_state"})
+    for fname, fn in pm.methods.items():
+        for c in walk_local(fn):
+            if pct and isinstance(c, ast.Call) and is_self_attr(c.func, "debug_print"):
+                why = _format_ok(c)
+                ctx.ob("R18.2", f"parser:CxxParser.{fname}|format of `{short(c, 40)}`", not why,
+                       msg=f"verbose mode applies '%' to the first argument of debug_print, the default mode ignores it: {why}; verbose mode would raise where the default mode parses", node=c, mod=mod)
     for fname, fn in pm.methods.items():
         for c in walk_local(fn):
             if isinstance(c, ast.Call) and is_self_attr(c.func, "debug_print"):
@@ -223,3 +239,25 @@ def _idx(pm: ParserModel, fname: str, call: ast.Call) -> int:
                 return i
             i += 1
     return -1
+
+
+_CONV = re.compile(r"%(?:\([^)]*\))?[#0\- +]*(?:\*|\d+)?(?:\.(?:\*|\d+))?[hlL]?([diouxXeEfFgGcrsa%])")
+
+
+def _format_ok(c: ast.Call) -> str:
+    """'' when the call's format is a constant whose conversions match its arguments"""
+    if not c.args or c.keywords or any(isinstance(a, ast.Starred) for a in c.args):
+        return "the call shape is not (constant format, values...)"
+    f = c.args[0]
+    if not (isinstance(f, ast.Constant) and isinstance(f.value, str)):
+        return f"the format `{short(f, 40)}` is not a constant string, so parsed data (which may contain '%') becomes part of it"
+    text = f.value
+    rest = _CONV.sub(lambda m: "" if m.group(1) != "%" else "", text)
+    if "%" in rest:
+        return f"the format {text!r} has a malformed '%' conversion"
+    n = sum(1 for m in _CONV.finditer(text) if m.group(1) != "%")
+    if "*" in "".join(m.group(0) for m in _CONV.finditer(text)) or "%(" in text:
+        return f"the format {text!r} uses '*' or mapping conversions"
+    if n != len(c.args) - 1:
+        return f"the format {text!r} has {n} conversion(s) for {len(c.args) - 1} value(s)"
+    return ""
